@@ -1101,7 +1101,7 @@ theorem translate_literal (p : List Char) (h : p.any (fun c => c == '?' || c == 
     simp [h.1.1, h.1.2]
 
 /-- the normal form `__cmp` compares (`str.upper()`) -/
-def norm (ic : Bool) (l : List Char) : List Char := if ic then l.map upperChar else l
+def norm (ic : Bool) (l : List Char) : List Char := if ic then l.flatMap upperStr else l
 
 /-- the normal form `__match` compares on a literal pattern (`re.IGNORECASE`) -/
 def normRe (ic : Bool) (l : List Char) : List Char := if ic then l.map reKey else l
